@@ -1098,4 +1098,65 @@ func c05RoundTrips(run *mon.Run, r *rand.Rand, cv ref.Conv) {
 		}
 		run.Shape("roundtrip|" + o.name + "|" + o.alg.String())
 	}
+	// Equals over every pair of produced objects (and their re-decoded twins): true exactly when the
+	// algorithm and the canonical encoding agree, in both directions, whatever produced the objects
+	type eqObj struct {
+		alg  crypto.SigningAlgorithm
+		pk   crypto.PublicKey
+		sk   crypto.PrivateKey
+		encP []byte
+		encS []byte
+		name string
+	}
+	var eo []eqObj
+	for i, o := range objs {
+		if i > 40 && i%5 != 0 {
+			continue
+		}
+		e := eqObj{alg: o.alg, pk: o.pk, sk: o.sk, name: o.name}
+		if o.pk != nil {
+			e.encP = o.pk.Encode()
+			if d, err := crypto.DecodePublicKey(o.alg, e.encP); err == nil {
+				eo = append(eo, eqObj{alg: o.alg, pk: d, encP: e.encP, name: o.name + "/re-decoded"})
+			}
+			if o.alg == BLS {
+				eo = append(eo, eqObj{alg: o.alg, pk: jacobianForm(o.pk, r), encP: e.encP, name: o.name + "/jacobian"})
+			}
+		}
+		if o.sk != nil {
+			e.encS = o.sk.Encode()
+			if d, err := crypto.DecodePrivateKey(o.alg, e.encS); err == nil {
+				eo = append(eo, eqObj{alg: o.alg, sk: d, encS: e.encS, name: o.name + "/re-decoded"})
+			}
+		}
+		eo = append(eo, e)
+	}
+	for i := range eo {
+		for j := range eo {
+			a, b := eo[i], eo[j]
+			if a.pk != nil && b.pk != nil {
+				want := a.alg == b.alg && bytes.Equal(a.encP, b.encP)
+				var got bool
+				if run.Guard("PublicKey.Equals", map[string]any{"a": a.name, "b": b.name}, func() { got = a.pk.Equals(b.pk) }) {
+					continue
+				}
+				run.Eval(1)
+				if got != want {
+					run.Violate("C05:equals:public", fmt.Sprintf("PublicKey.Equals(%s %s, %s %s) = %v, expected %v (encodings %x / %x)", a.alg, a.name, b.alg, b.name, got, want, trunc(a.encP, 16), trunc(b.encP, 16)), map[string]any{"a": a.name, "b": b.name})
+				}
+			}
+			if a.sk != nil && b.sk != nil {
+				want := a.alg == b.alg && bytes.Equal(a.encS, b.encS)
+				var got bool
+				if run.Guard("PrivateKey.Equals", map[string]any{"a": a.name, "b": b.name}, func() { got = a.sk.Equals(b.sk) }) {
+					continue
+				}
+				run.Eval(1)
+				if got != want {
+					run.Violate("C05:equals:private", fmt.Sprintf("PrivateKey.Equals(%s %s, %s %s) = %v, expected %v", a.alg, a.name, b.alg, b.name, got, want), map[string]any{"a": a.name, "b": b.name})
+				}
+			}
+		}
+	}
+	run.Shape("equals-matrix")
 }
